@@ -159,10 +159,17 @@ func runShards(id string, n int) *shardOut {
 			defer wg.Done()
 			sem <- struct{}{}
 			defer func() { <-sem }()
-			cmd := exec.Command(os.Args[0], id)
-			cmd.Env = append(os.Environ(), fmt.Sprintf("VERIF_SHARD=%d/%d", i, n), "GOMAXPROCS=2")
-			cmd.Stderr = os.Stderr
-			b, err := cmd.Output()
+			var b []byte
+			var err error
+			for attempt := 0; attempt < 4; attempt++ {
+				cmd := exec.Command(os.Args[0], id)
+				cmd.Env = append(os.Environ(), fmt.Sprintf("VERIF_SHARD=%d/%d", i, n), "GOMAXPROCS=2")
+				cmd.Stderr = os.Stderr
+				b, err = cmd.Output()
+				if ee, ok := err.(*exec.ExitError); !ok || ee.ExitCode() != exitRetryShard {
+					break // anything but "the environment could not be set up: run me again"
+				}
+			}
 			var so shardOut
 			if err != nil || json.Unmarshal(b, &so) != nil {
 				fmt.Fprintf(os.Stderr, "enum: shard %d/%d of %s failed: %v\n%s\n", i, n, id, err, tail(b))
